@@ -88,6 +88,14 @@ impl Out {
         };
         self.emit(json!({"id": self.n, "kind": kind, "trace": trace, "intended": intended, "toml": toml, "ser_error": err, "readback": rb, "expect_error": expect_error}));
     }
+    /// a document written by some other libcnb call than write_toml_file (layer APIs)
+    fn case_text(&mut self, kind: &str, trace: String, intended: Value, toml: Option<String>, err: Option<String>, readback: impl Fn(&str) -> String) {
+        let rb = match &toml {
+            Some(t) => readback(t),
+            None => "n/a".into(),
+        };
+        self.emit(json!({"id": self.n, "kind": kind, "trace": trace, "intended": intended, "toml": toml, "ser_error": err, "readback": rb, "expect_error": false}));
+    }
     fn emit(&mut self, v: Value) {
         writeln!(self.f, "{v}").unwrap();
         self.n += 1;
@@ -111,6 +119,9 @@ fn build_proc(p: &Proc) -> libcnb_data::launch::Process {
     let mut pb = ProcessBuilder::new(p.r#type.parse().unwrap(), p.command.clone());
     if p.args.len() == 1 {
         pb.arg(&p.args[0]);
+    } else if p.args.len() == 3 {
+        pb.arg(&p.args[0]);
+        pb.args(p.args[1..].to_vec());
     } else if !p.args.is_empty() {
         pb.args(p.args.clone());
     }
@@ -146,6 +157,10 @@ enum LAct {
     P(usize),
     L(usize),
     S(usize),
+    /// the plural builder methods (processes / labels / slices) with two elements each
+    Pn,
+    Ln,
+    Sn,
 }
 
 fn base_procs() -> Vec<Proc> {
@@ -154,6 +169,8 @@ fn base_procs() -> Vec<Proc> {
         Proc { r#type: "worker", command: vec!["a".into(), "b c".into()], args: vec!["-v".into(), "x y".into()], default: Some(true), wd: Some(Some("/x y".into())) },
         Proc { r#type: "w.e_b-1", command: vec!["sh".into()], args: vec!["one".into()], default: Some(false), wd: Some(None) },
         Proc { r#type: "web", command: vec![], args: vec![], default: Some(true), wd: Some(Some(".".into())) },
+        // three arguments: built as arg(..) followed by args([.., ..]) (mixed singular/plural calls)
+        Proc { r#type: "mixed", command: vec!["m".into()], args: vec!["1".into(), "".into(), "3 3".into()], default: None, wd: None },
     ]
 }
 
@@ -161,7 +178,7 @@ fn launch_cases(out: &mut Out, depth: usize) {
     let procs = base_procs();
     let labels = [("k", "v"), ("io.x/y z", "")];
     let slices = [vec!["*.txt".to_string()], vec![]];
-    let acts: Vec<LAct> = (0..procs.len()).map(LAct::P).chain((0..2).map(LAct::L)).chain((0..2).map(LAct::S)).collect();
+    let acts: Vec<LAct> = (0..4).map(LAct::P).chain((0..2).map(LAct::L)).chain((0..2).map(LAct::S)).chain([LAct::Pn, LAct::Ln, LAct::Sn]).collect();
     // all builder call sequences up to `depth`
     let mut seqs: Vec<Vec<LAct>> = vec![vec![]];
     let mut level: Vec<Vec<LAct>> = vec![vec![]];
@@ -197,6 +214,22 @@ fn launch_cases(out: &mut Out, depth: usize) {
                     lb.slice(Slice { path_globs: slices[*i].clone() });
                     is.push(json!(slices[*i]));
                     trace.push(format!("slice#{i}"));
+                }
+                LAct::Pn => {
+                    lb.processes([build_proc(&procs[1]), build_proc(&procs[4])]);
+                    ip.push(proc_json(&procs[1]));
+                    ip.push(proc_json(&procs[4]));
+                    trace.push("processes[#1,#4]".into());
+                }
+                LAct::Ln => {
+                    lb.labels(labels.iter().map(|(k, v)| Label { key: (*k).into(), value: (*v).into() }));
+                    il.extend(labels.iter().map(|(k, v)| json!([k, v])));
+                    trace.push("labels[#0,#1]".into());
+                }
+                LAct::Sn => {
+                    lb.slices(slices.iter().map(|g| Slice { path_globs: g.clone() }));
+                    is.extend(slices.iter().map(|g| json!(g)));
+                    trace.push("slices[#0,#1]".into());
                 }
             }
         }
@@ -377,6 +410,84 @@ fn metadata_cases(out: &mut Out) {
     }
 }
 
+#[derive(serde::Serialize, serde::Deserialize, Clone, Debug)]
+struct MV {
+    v: toml::Value,
+}
+
+struct CreateWith(toml::Table);
+#[allow(deprecated)]
+impl libcnb::layer::Layer for CreateWith {
+    type Buildpack = vh::layermodel::VB;
+    type Metadata = toml::Table;
+    fn types(&self) -> LayerTypes {
+        LayerTypes { launch: true, build: false, cache: true }
+    }
+    fn create(&mut self, _c: &libcnb::build::BuildContext<vh::layermodel::VB>, _p: &std::path::Path) -> Result<libcnb::layer::LayerResult<toml::Table>, vh::layermodel::VErr> {
+        libcnb::layer::LayerResultBuilder::new(self.0.clone()).build()
+    }
+}
+
+/// layer metadata written through the layer APIs themselves (not through write_toml_file on a
+/// LayerContentMetadata): struct API `write_metadata`, struct API `ReplaceMetadata` on invalid
+/// metadata, trait API `create`
+#[allow(deprecated)]
+fn layer_api_cases(out: &mut Out) {
+    use libcnb::layer::{CachedLayerDefinition, InvalidMetadataAction, RestoredLayerAction};
+    let vals = gen_values();
+    for (tv, jv) in &vals {
+        let mut table = toml::Table::new();
+        table.insert("v".into(), tv.clone());
+        for route in 0..3 {
+            let sc = Scratch::new("c07l");
+            let ctx = vh::layermodel::mk_context(&sc.path);
+            let name: libcnb::data::layer::LayerName = "a".parse().unwrap();
+            let (types, r): ((bool, bool, bool), Result<(), String>) = match route {
+                0 => (
+                    (false, true, true),
+                    ctx.cached_layer(&name, CachedLayerDefinition { build: true, launch: false, invalid_metadata_action: &|_| InvalidMetadataAction::DeleteLayer::<toml::Table>, restored_layer_action: &|_: &toml::Table, _| RestoredLayerAction::KeepLayer })
+                        .and_then(|lr| lr.write_metadata(table.clone()))
+                        .map_err(|e| format!("{e:?}")),
+                ),
+                1 => {
+                    // an existing layer whose metadata does not parse as MV (no `v`): replaced by the callback
+                    std::fs::create_dir_all(ctx.layers_dir.join("a")).unwrap();
+                    std::fs::write(ctx.layers_dir.join("a.toml"), "[metadata]\nother = 1\n").unwrap();
+                    let mv = MV { v: tv.clone() };
+                    (
+                        (true, true, true),
+                        ctx.cached_layer(&name, CachedLayerDefinition { build: true, launch: true, invalid_metadata_action: &|_| InvalidMetadataAction::ReplaceMetadata(mv.clone()), restored_layer_action: &|_: &MV, _| RestoredLayerAction::KeepLayer })
+                            .map(|_| ())
+                            .map_err(|e| format!("{e:?}")),
+                    )
+                }
+                _ => ((true, false, true), ctx.handle_layer(name.clone(), CreateWith(table.clone())).map(|_| ()).map_err(|e| format!("{e:?}"))),
+            };
+            let text = std::fs::read_to_string(ctx.layers_dir.join("a.toml")).ok();
+            let (toml, err) = match r {
+                Ok(()) => (text, None),
+                Err(e) => (None, Some(e)),
+            };
+            let t2 = types;
+            let table2 = table.clone();
+            out.case_text(
+                "layer_metadata",
+                format!("{} metadata v={jv}", ["struct API write_metadata", "struct API ReplaceMetadata", "trait API create"][route]),
+                json!({"types": {"launch": types.0, "build": types.1, "cache": types.2}, "metadata": ["t", {"v": jv}]}),
+                toml,
+                err,
+                move |s: &str| match toml::from_str::<LayerContentMetadata>(s) {
+                    Err(e) => format!("error: {e}"),
+                    Ok(back) => {
+                        let bt = back.types.map(|x| (x.launch, x.build, x.cache));
+                        if bt == Some(t2) && toml_eq(&back.metadata.map(toml::Value::Table), &Some(toml::Value::Table(table2.clone()))) { "ok".into() } else { "differs".into() }
+                    }
+                },
+            );
+        }
+    }
+}
+
 /// structural equality of toml values with nan == nan
 fn toml_eq(a: &Option<toml::Value>, b: &Option<toml::Value>) -> bool {
     fn eq(a: &toml::Value, b: &toml::Value) -> bool {
@@ -462,6 +573,7 @@ pub fn generate(args: &Args) {
     launch_cases(&mut out, ld);
     plan_cases(&mut out, pd);
     metadata_cases(&mut out);
+    layer_api_cases(&mut out);
     package_cases(&mut out);
     execd_cases(&mut out);
     out.f.flush().unwrap();
